@@ -191,6 +191,11 @@ func (x *Explorer) runPath(sv *Solver, it qitem) {
 		}
 	}
 	vec = e.vector()
+	// implicit obligation of every path: no Go panic condition was satisfiable and no budget was exhausted
+	e.obligations++
+	if outcome == "ok" || outcome == "assume" {
+		e.discharged++
+	}
 	st := x.res
 	st.mu.Lock()
 	defer st.mu.Unlock()
